@@ -130,6 +130,28 @@ def gen(tier, rng):
             c["opt"].pop("crop", None)
             c["opt"]["fit"] = None if n % 3 else [{"n": 1, "q": 2}, {"n": rz.pick(n, 216, [0, 1, 2]), "q": 2}]
             cases.append(c)
+    # crop boxes narrower than any rational grid (one ulp wide / high, flush against the right / bottom edge; 1e-9; denormal):
+    # a successful call assigns every destination pixel there too
+    from props.c03 import f64bits, nextbelow
+    for pt in ("U8", "U8x4", "U16x3", "F32"):
+        for (sw, sh) in ((1, 1), (4, 3), (9, 2)):
+            W, H = float(sw), float(sh)
+            full_w, full_h = {"n": sw, "q": 1}, {"n": sh, "q": 1}
+            for crop in ([f64bits(nextbelow(W)), 0, f64bits(W - nextbelow(W)), full_h], [0, f64bits(nextbelow(H)), full_w, f64bits(H - nextbelow(H))],
+                         [f64bits(nextbelow(W)), f64bits(nextbelow(H)), f64bits(W - nextbelow(W)), f64bits(H - nextbelow(H))],
+                         [0, f64bits(H - 1e-9), full_w, f64bits(1e-9)], [f64bits(1e-300), f64bits(1e-300), f64bits(1e-300), f64bits(1e-300)]):
+                for (alg, flt, m) in (("nearest", "Box", 1), ("conv", "Bilinear", 1), ("ss", "Box", 2)):
+                    n += 1
+                    if tier == "quick" and rz.pick(n, 217, [0, 1]):
+                        continue
+                    g += 1
+                    dw, dh = rz.pick(n, 218, [(1, 1), (3, 2), (2, 5)])
+                    for rep, sent in enumerate((0x2323 + n, 0x6565 + 3 * n)):
+                        c = rz.resize_case(pt, sw, sh, dw, dh, alg=alg, flt=flt, m=m, alpha=False, cpu=rz.pick(n, 219, rz.CPUS), src_c={"g": "rand", "seed": n},
+                                           dst_lay={"k": "crop_mut", "pad": [1, 1, 1, 1], "guard": 1}, log=("dst",),
+                                           chk=["ret_ok", "outside", "srcsame"] + (["memo_exact"] if rep else []), g=g, sent=sent)
+                        c["opt"]["crop"] = crop
+                        cases.append(c)
     # thorough: seeded random calls through random container pairs
     if tier != "quick":
         for i in range(30000):
